@@ -47,6 +47,18 @@ pub struct Opts {
     pub limit_high_lbd: usize,
     pub sort_lbd: bool,
     pub seed: u64,
+    /// recursion depth at which the recursive minimiser gives up (500 in the solver; the harness
+    /// lowers it through the verif hook so that the give-up branch runs on small models)
+    pub rec_depth: usize,
+}
+
+/// derived from the seed draw, so that adding the knob did not change the generated cases
+fn rec_depth_of(seed: u64) -> usize {
+    if seed % 3 == 0 {
+        1 + ((seed / 3) % 6) as usize
+    } else {
+        500
+    }
 }
 
 /// number of termination polls after which a solve is declared non-terminating
@@ -67,6 +79,7 @@ impl Default for Opts {
             limit_high_lbd: 4000,
             sort_lbd: true,
             seed: 42,
+            rec_depth: 500,
         }
     }
 }
@@ -76,9 +89,10 @@ impl Opts {
     /// limits (deletion every few conflicts), both sorting strategies, both resolvers.
     pub fn random(r: &mut Rng) -> Opts {
         if r.chance(1, 8) {
-            return Opts { seed: r.below(1000), ..Opts::default() };
+            let seed = r.below(1000);
+            return Opts { seed, rec_depth: rec_depth_of(seed), ..Opts::default() };
         }
-        Opts {
+        let mut o = Opts {
             resolver_uip: !r.chance(1, 5),
             minimise: r.chance(2, 3),
             seq: r.below(3) as u8,
@@ -89,12 +103,15 @@ impl Opts {
             limit_high_lbd: r.usize(6),
             sort_lbd: r.chance(1, 2),
             seed: r.below(1000),
-        }
+            rec_depth: 500,
+        };
+        o.rec_depth = rec_depth_of(o.seed);
+        o
     }
 
     pub fn describe(&self) -> String {
         format!(
-            "uip={} min={} seq={} base={} minc={} norestart={} lbd={} limit={} sortlbd={} seed={}",
+            "uip={} min={} seq={} base={} minc={} norestart={} lbd={} limit={} sortlbd={} seed={} recdepth={}",
             self.resolver_uip as u8,
             self.minimise as u8,
             self.seq,
@@ -104,7 +121,8 @@ impl Opts {
             self.lbd_threshold,
             self.limit_high_lbd,
             self.sort_lbd as u8,
-            self.seed
+            self.seed,
+            self.rec_depth
         )
     }
 
@@ -125,6 +143,7 @@ impl Opts {
                 "limit" => o.limit_high_lbd = n as usize,
                 "sortlbd" => o.sort_lbd = n == 1,
                 "seed" => o.seed = n,
+                "recdepth" => o.rec_depth = (n as usize).max(1),
                 _ => {}
             }
         }
@@ -132,6 +151,7 @@ impl Opts {
     }
 
     pub fn to_solver_options(&self) -> SolverOptions {
+        pumpkin_solver::verif_hooks::set_recursive_minimiser_depth_limit(self.rec_depth);
         SolverOptions {
             restart_options: RestartOptions {
                 sequence_generator_type: match self.seq {
